@@ -180,6 +180,10 @@ CATALOGUE = [
     ("varstore-regions-reversed", "varLib/varStore.py", "    for i in sorted(usedRegions):", "    for i in sorted(usedRegions, reverse=True):", "C09", "VarStoreSubsetVarIdxes", "green"),
     ("numshorts-one-column-short", "varLib/builder.py", "            max((i for i, b in enumerate(byte_lengths) if b > 1), default=-1) + 1", "            max((i for i, b in enumerate(byte_lengths) if b > 1), default=-1)", "C09", "CalculateNumShorts", "alarm"),
     ("remap-components-xy-scale-size", "subset/__init__.py", "        elif flags & 0x0040:\n            i += 4  # WE_HAVE_AN_X_AND_Y_SCALE", "        elif flags & 0x0040:\n            i += 2  # WE_HAVE_AN_X_AND_Y_SCALE", "C07", "RemapComponentsFast", "alarm"),
+    ("compile-loop-returns-fallback-packing", "ttLib/tables/otBase.py", "                    self.tryPackingFontTools(writer)\n                    log.debug(", "                    return self.tryPackingFontTools(writer)\n                    log.debug(", "C06", "CompileRetryLoop", "alarm"),
+    ("glyph-order-stale-reverse-map", "ttLib/ttFont.py", '        if hasattr(self, "_reverseGlyphOrderDict"):\n            del self._reverseGlyphOrderDict\n        if self.isLoaded("glyf"):', '        if self.isLoaded("glyf"):', "C17", "GlyphOrderHistory", "alarm"),
+    ("deleted-table-resurrected", "ttLib/ttFont.py", "        if self.reader and tag in self.reader:\n            del self.reader[tag]\n", "", "C16", "TableAccessOrder", "alarm"),
+    ("tag-order-dsig-not-last", "ttLib/ttFont.py", '            tagList.remove("DSIG")\n            tagList.append("DSIG")', '            pass', "C04", "SortedTagList", "alarm"),
     ("closure-memo-subset-spelling", "subset/__init__.py", "    if cur_glyphs.issubset(covered):\n        return\n    covered.update(cur_glyphs)\n\n    for st in self.SubTable:", "    if cur_glyphs <= covered:\n        return\n    covered.update(cur_glyphs)\n\n    for st in self.SubTable:", "C07", "LookupClosureMemo", "green"),
 ]
 
